@@ -382,6 +382,7 @@ func init() {
 			}
 		}
 		ex.res.Outputs = append(ex.res.Outputs, label+" "+sb.String())
+		st.outputs = append(st.outputs, outRec{label: label, ts: bs})
 		return nil
 	}
 	intrinsics[vrt+"LenAny"] = func(ex *Exec, st *State, fr *Frame, c *ssa.Call, a []Value) Value {
@@ -1216,6 +1217,10 @@ func (ex *Exec) witness(st *State, label string) {
 		}
 	}
 	want := ex.drawTerms(st)
+	nd := len(want)
+	for _, o := range st.outputs {
+		want = append(want, o.ts...)
+	}
 	r, vals := ex.check(st, nil, want)
 	if r != Sat {
 		return
@@ -1224,6 +1229,44 @@ func (ex *Exec) witness(st *State, label string) {
 	w := &Violation{Label: label, Site: site, Func: fn, PCSize: len(st.pc)}
 	if vals != nil || len(want) == 0 {
 		w.Model = ex.modelOf(st, vals)
+		// values the engine computes for the recorded outputs under this model (only outputs free of
+		// uninterpreted functions are comparable with the native run)
+		p := nd
+		for _, o := range st.outputs {
+			hasUF := false
+			for _, t := range o.ts {
+				if termHasUF(t, map[int]bool{}) {
+					hasUF = true
+				}
+			}
+			var sb strings.Builder
+			for range o.ts {
+				fmt.Fprintf(&sb, "%02x", vals[p].Uint64())
+				p++
+			}
+			if !hasUF {
+				if w.Extra == nil {
+					w.Extra = map[string]string{}
+				}
+				w.Extra["output:"+o.label] = sb.String()
+			}
+		}
 	}
 	ex.res.Witnesses = append(ex.res.Witnesses, w)
+}
+
+func termHasUF(t *Term, seen map[int]bool) bool {
+	if seen[t.id] {
+		return false
+	}
+	seen[t.id] = true
+	if t.op == OpUF {
+		return true
+	}
+	for _, a := range t.args {
+		if termHasUF(a, seen) {
+			return true
+		}
+	}
+	return false
 }
